@@ -1,35 +1,154 @@
 //! C20 — maximal_cliques, dsatur_coloring, greedy_feedback_arc_set, tred, all_simple_paths,
 //! steiner_tree, page_rank: one sub-algorithm per case (`case % 7`), one abstract graph per case,
-//! encoded in every storage type the algorithm's trait bounds admit.
+//! encoded in every storage type AND every adaptor the algorithm's trait bounds admit.
 //!
 //! Protocol (all ids abstract):
+//!   note <free text>                                          => -      (tags of the case: encoding, adaptor, corner; counted for the distribution)
 //!   fas eorder=<edge ids in edge_references order>            => <edge ids returned, iteration order>
 //!   dsatur                                                    => colors=<a:c,..> k=<k>
 //!   tred topo=<nodes in the toposort handed in>               => revmap=<a:r,..> res=<r:s,s;..> red=<..> clo=<..>
 //!   cliques                                                   => <c1;c2;..>   (each sorted; in the order of the returned Vec)
-//!   paths <a> <b> <min> <max|none>                            => <p1;p2;..>   (iterator order)
+//!   paths <a> <b> <min> <max|none>                            => <p1;p2;..>   (iterator order; b = n is an ABSENT target)
 //!   steiner terms=<..>                                        => nodes=<..> edges=<edge ids>
-//!   pagerank d=<num>/<den> it=<k> perm=<p>                    => <ranks*1e12>|<ranks*1e12 of the relabelled copy>
+//!   pagerank d=<num>/<den> it=<k> perm=<p> [tol=<units>]      => <ranks*1e12>|<ranks*1e12 of the relabelled copy>
+//!   law <name> <details>                                      => ok | VIOLATED <why>
+//!
+//! `law` lines are checks of the implementation against itself (wave 6): iterator contracts of the
+//! returned iterators and of the result types' iterators, results that must not depend on a type
+//! parameter (`TargetColl`, hasher `S`, output index type, float width), capacity corners that are too
+//! large for the brute-force judges (u8 index types at 255 / 256 nodes), results observed through a
+//! second public API.  The driver expects `ok`.
 //!
 //! Domain notes: `all_simple_paths` is exercised with from != to (85 %) and from == to (15 %: the crate
 //! then yields the simple cycles through `from` and, with max = None, misses the Hamiltonian one —
-//! judged by the statement of `C20_paths_from_eq_to`); `steiner_tree` gets >= 2 distinct terminals of
-//! one component, plus 3 % single-terminal cases (the tree is that node alone; D29 is fixed);
-//! `page_rank` runs on compact encodings only (StableGraph with vacancies is finding D12 of C07).
+//! judged by the statement of `C20_paths_from_eq_to`), with `min > max`, `max = 0` and an absent / stale
+//! target id; `steiner_tree` gets >= 2 distinct terminals of one component, plus single-terminal,
+//! duplicated-terminal and all-nodes-terminal cases (D29 is fixed); `page_rank` runs on compact
+//! encodings only (StableGraph with vacancies is finding D12 of C07), in f64 and f32.
+//!
+//! Adaptors are exercised "inside out": the storage holds a pre-image (the reversed graph, the graph
+//! plus junk edges / junk nodes, one orientation of an undirected graph) such that the ADAPTOR's view
+//! is the case's abstract graph; the `graph` line is printed through the adaptor itself.
 use crate::common::*;
 use crate::graphs::*;
+use crate::iterlaws::{iter_laws, iter_laws_de, iter_laws_exact, law_verdict};
 use crate::rng::Rng;
+use petgraph::acyclic::Acyclic;
 use petgraph::algo::steiner_tree::steiner_tree;
 use petgraph::algo::tred::{dag_to_toposorted_adjacency_list, dag_transitive_reduction_closure};
 use petgraph::algo::{all_simple_paths, dsatur_coloring, greedy_feedback_arc_set, maximal_cliques, page_rank};
-use petgraph::graph::{IndexType, NodeIndex};
+use petgraph::graph::{Frozen, Graph, IndexType, NodeIndex};
+use petgraph::stable_graph::StableGraph;
 use petgraph::visit::{
-    EdgeRef, GetAdjacencyMatrix, GraphProp, IntoEdgeReferences, IntoEdges, IntoNeighbors, IntoNeighborsDirected,
-    IntoNodeIdentifiers, NodeCompactIndexable, NodeCount, NodeIndexable, Visitable,
+    EdgeFiltered, EdgeRef, GetAdjacencyMatrix, GraphProp, IntoEdgeReferences, IntoEdges, IntoNeighbors, IntoNeighborsDirected,
+    IntoNodeIdentifiers, IntoNodeReferences, NodeCompactIndexable, NodeCount, NodeFiltered, NodeIndexable, Reversed, UndirectedAdaptor, Visitable,
 };
-use petgraph::{Directed, Undirected};
+use petgraph::{Directed, EdgeType, Undirected};
 use std::collections::hash_map::RandomState;
+use std::collections::{BTreeSet, HashSet, VecDeque};
+use std::fmt::Debug;
 use std::hash::Hash;
+
+fn note(ctx: &mut Ctx, s: &str) {
+    ctx.line(&format!("note {}", s), "-");
+}
+
+fn law(ctx: &mut Ctx, name: &str, r: Option<String>) {
+    ctx.line(&format!("law {}", name), &law_verdict(r));
+}
+
+/// laws of `Iterator` for an iterator that is not `Clone` (the `impl Iterator` results of
+/// `greedy_feedback_arc_set` and `all_simple_paths`): `mk` makes a fresh iterator of the same call,
+/// `key` projects an item to something comparable.  Methods are called on the RAW iterator, so an
+/// overridden `nth` / `count` / `last` / `size_hint` / `fold` of it is what is exercised.
+fn regen_laws<I, K>(mk: &dyn Fn() -> I, key: &dyn Fn(I::Item) -> K, cap: usize) -> Option<String>
+where
+    I: Iterator,
+    K: PartialEq + Debug,
+{
+    let v: Vec<K> = mk().take(cap + 1).map(key).collect();
+    if v.len() > cap {
+        return None; // too long to be consumed several times
+    }
+    let n = v.len();
+    let again: Vec<K> = mk().map(key).collect();
+    if again != v {
+        return Some(format!("two calls with the same arguments yield {:?} and {:?}", v, again));
+    }
+    let (lo, hi) = mk().size_hint();
+    if lo > n || hi.map_or(false, |h| h < n) {
+        return Some(format!("size_hint = ({}, {:?}) but {} items are yielded", lo, hi, n));
+    }
+    let c = mk().count();
+    if c != n {
+        return Some(format!("count() = {} but {} items are yielded", c, n));
+    }
+    if mk().last().map(key) != mk().map(key).last() {
+        return Some("last() is not the last item yielded".to_string());
+    }
+    let mut ks = vec![0, 1, 2, n / 2, n.saturating_sub(1), n, n + 1];
+    ks.sort();
+    ks.dedup();
+    for k in ks {
+        let mut a = mk();
+        let got = a.nth(k).map(key);
+        let want = if k < n { Some(&v[k]) } else { None };
+        if got.as_ref() != want {
+            return Some(format!("nth({}) = {:?}, stepping with next gives {:?}", k, got, want));
+        }
+        let ra: Vec<K> = a.map(key).collect();
+        let rb = &v[(k + 1).min(n)..];
+        if ra[..] != *rb {
+            return Some(format!("after nth({}) the remaining items are {:?}, expected {:?}", k, ra, rb));
+        }
+        let mut m = mk();
+        for _ in 0..k.min(n) {
+            m.next();
+        }
+        let rest = n - k.min(n);
+        let (lo, hi) = m.size_hint();
+        if lo > rest || hi.map_or(false, |h| h < rest) {
+            return Some(format!("after {} items size_hint = ({}, {:?}) but {} items remain", k.min(n), lo, hi, rest));
+        }
+        let s = mk().skip(k).count();
+        if s != rest {
+            return Some(format!("skip({}) yields {} items, expected {}", k, s, rest));
+        }
+        let t: Vec<K> = mk().take(k).map(key).collect();
+        if t[..] != v[..k.min(n)] {
+            return Some(format!("take({}) yields {:?}, the sequence starts {:?}", k, t, &v[..k.min(n)]));
+        }
+    }
+    let s2: Vec<K> = mk().step_by(2).map(key).collect();
+    if s2.len() != (n + 1) / 2 || s2.iter().enumerate().any(|(i, x)| *x != v[2 * i]) {
+        return Some(format!("step_by(2) yields {:?} of {:?}", s2, v));
+    }
+    let f = mk().fold(0usize, |acc, _| acc + 1);
+    if f != n {
+        return Some(format!("fold visits {} items, next visits {}", f, n));
+    }
+    let mut e = mk();
+    for _ in 0..n {
+        e.next();
+    }
+    if e.next().is_some() || e.next().is_some() {
+        return Some("an item is yielded after the sequence ended".to_string());
+    }
+    None
+}
+
+const JUNKW: i64 = -777;
+const JUNKN: usize = usize::MAX;
+
+/// the reversed abstract graph (same edge ids)
+fn rev_ag(ag: &AG) -> AG {
+    AG { directed: ag.directed, n: ag.n, edges: ag.edges.iter().map(|&(a, b, w)| (b, a, w)).collect() }
+}
+
+/// one orientation of an undirected abstract graph (same edge ids)
+fn orient_ag(rng: &mut Rng, ag: &AG) -> AG {
+    AG { directed: true, n: ag.n, edges: ag.edges.iter().map(|&(a, b, w)| if rng.chance(50) { (b, a, w) } else { (a, b, w) }).collect() }
+}
 
 // ------------------------------------------------------------------------------------------------
 // encodings: each macro builds one storage type for `ag`, prints its `graph` line and evaluates the
@@ -143,6 +262,203 @@ macro_rules! with_csr {
 }
 
 
+// ------------------------------------------------------------------------------------------------
+// adaptors (wave 6).  `EncJ` = the abstract graph plus junk: junk nodes carry the weight `JUNKN`, junk
+// edges the weight `JUNKW`; `eid[k]` = abstract id of concrete edge k (usize::MAX for junk).
+
+struct EncJ<G> {
+    g: G,
+    eid: Vec<usize>,
+}
+
+macro_rules! def_enc_junk {
+    ($fname:ident, $G:ident) => {
+        fn $fname<Ty: EdgeType, Ix: IndexType>(rng: &mut Rng, ag: &AG, o: &Orders, jn: bool, je: bool) -> EncJ<$G<usize, i64, Ty, Ix>> {
+            let mut g = $G::<usize, i64, Ty, Ix>::with_capacity(0, 0);
+            let mut cidx = vec![Default::default(); ag.n];
+            let mut junk = Vec::new();
+            for &a in &o.node_order {
+                if jn && rng.chance(30) {
+                    junk.push(g.add_node(JUNKN));
+                }
+                cidx[a] = g.add_node(a);
+            }
+            if jn && (junk.is_empty() || rng.chance(30)) {
+                junk.push(g.add_node(JUNKN));
+            }
+            let mut eid = Vec::new();
+            let all: Vec<_> = g.node_indices().collect();
+            let mut junk_edge = |g: &mut $G<usize, i64, Ty, Ix>, eid: &mut Vec<usize>, rng: &mut Rng| {
+                if je && ag.n > 0 && rng.chance(35) {
+                    let (x, y) = (cidx[rng.below(ag.n)], cidx[rng.below(ag.n)]);
+                    g.add_edge(x, y, JUNKW);
+                    eid.push(usize::MAX);
+                }
+                if jn && rng.chance(35) {
+                    let (x, y) = (junk[rng.below(junk.len())], all[rng.below(all.len())]);
+                    if rng.chance(50) { g.add_edge(x, y, JUNKW); } else { g.add_edge(y, x, JUNKW); }
+                    eid.push(usize::MAX);
+                }
+            };
+            for &k in &o.edge_order {
+                junk_edge(&mut g, &mut eid, rng);
+                let (a, b, w) = ag.edges[k];
+                g.add_edge(cidx[a], cidx[b], w);
+                eid.push(k);
+            }
+            junk_edge(&mut g, &mut eid, rng);
+            junk_edge(&mut g, &mut eid, rng);
+            EncJ { g, eid }
+        }
+    };
+}
+def_enc_junk!(enc_junk_graph, Graph);
+def_enc_junk!(enc_junk_stable, StableGraph);
+
+/// `adapt_one!(Kind, ctx, rng, ag, o, Ty, Ix, |g, abs, conc, eid| body)`: builds the pre-image of `ag` for the
+/// adaptor `Kind`, prints the `graph` line THROUGH the adaptor and evaluates `body` with `g` = the adaptor.
+macro_rules! adapt_one {
+    (RevGraph, $ctx:expr, $rng:expr, $ag:expr, $o:expr, $Ty:ty, $Ix:ty, |$g:ident, $abs:ident, $conc:ident, $eid:ident| $body:expr) => {{
+        let rag = rev_ag($ag);
+        let e = enc_graph::<$Ty, $Ix>(&rag, &$o.node_order, &$o.edge_order);
+        let $g = Reversed(&e.g);
+        let $abs = |x: NodeIndex<$Ix>| e.g[x];
+        let $conc = |a: usize| NodeIndex::<$Ix>::new($o.inv[a]);
+        let $eid = |k: usize| e.eid[k];
+        note($ctx, "adaptor=Reversed base=Graph");
+        $ctx.line(&view_line($ag, $g, &$abs, &|er, _| e.eid[EdgeRef::id(&er).index()]), "ok");
+        let _ = (&$abs, &$conc, &$eid);
+        $body
+    }};
+    (RevStable, $ctx:expr, $rng:expr, $ag:expr, $o:expr, $Ty:ty, $Ix:ty, |$g:ident, $abs:ident, $conc:ident, $eid:ident| $body:expr) => {{
+        let rag = rev_ag($ag);
+        let e = enc_stable::<$Ty, $Ix>($rng, &rag, &$o.node_order, &$o.edge_order, true);
+        let $g = Reversed(&e.g);
+        let cidx: Vec<NodeIndex<$Ix>> = {
+            let mut v = vec![NodeIndex::<$Ix>::new(0); $ag.n];
+            for x in e.g.node_indices() {
+                v[e.g[x]] = x;
+            }
+            v
+        };
+        let $abs = |x: NodeIndex<$Ix>| e.g[x];
+        let $conc = |a: usize| cidx[a];
+        let $eid = |k: usize| e.eid[k];
+        note($ctx, "adaptor=Reversed base=StableGraph");
+        $ctx.line(&view_line($ag, $g, &$abs, &|er, _| e.eid[EdgeRef::id(&er).index()]), "ok");
+        let _ = (&$abs, &$conc, &$eid);
+        $body
+    }};
+    (FrozenGraph, $ctx:expr, $rng:expr, $ag:expr, $o:expr, $Ty:ty, $Ix:ty, |$g:ident, $abs:ident, $conc:ident, $eid:ident| $body:expr) => {{
+        // the visit traits of `&Frozen<G>` ask for `G: IntoX`, i.e. `G` itself must be a reference type
+        let EncGraph { g: gg, eid: eidv } = enc_graph::<$Ty, $Ix>($ag, &$o.node_order, &$o.edge_order);
+        let mut gr = &gg;
+        let fr = Frozen::new(&mut gr);
+        let $g = &fr;
+        let $abs = |x: NodeIndex<$Ix>| gg[x];
+        let $conc = |a: usize| NodeIndex::<$Ix>::new($o.inv[a]);
+        let $eid = |k: usize| eidv[k];
+        note($ctx, "adaptor=Frozen base=Graph");
+        $ctx.line(&view_line($ag, $g, &$abs, &|er, _| eidv[EdgeRef::id(&er).index()]), "ok");
+        let _ = (&$abs, &$conc, &$eid);
+        $body
+    }};
+    (FrozenStable, $ctx:expr, $rng:expr, $ag:expr, $o:expr, $Ty:ty, $Ix:ty, |$g:ident, $abs:ident, $conc:ident, $eid:ident| $body:expr) => {{
+        let EncStable { g: gg, eid: eidv } = enc_stable::<$Ty, $Ix>($rng, $ag, &$o.node_order, &$o.edge_order, true);
+        let cidx: Vec<NodeIndex<$Ix>> = {
+            let mut v = vec![NodeIndex::<$Ix>::new(0); $ag.n];
+            for x in gg.node_indices() {
+                v[gg[x]] = x;
+            }
+            v
+        };
+        let mut gr = &gg;
+        let fr = Frozen::new(&mut gr);
+        let $g = &fr;
+        let $abs = |x: NodeIndex<$Ix>| gg[x];
+        let $conc = |a: usize| cidx[a];
+        let $eid = |k: usize| eidv[k];
+        note($ctx, "adaptor=Frozen base=StableGraph");
+        $ctx.line(&view_line($ag, $g, &$abs, &|er, _| eidv[EdgeRef::id(&er).index()]), "ok");
+        let _ = (&$abs, &$conc, &$eid);
+        $body
+    }};
+    (EfGraph, $ctx:expr, $rng:expr, $ag:expr, $o:expr, $Ty:ty, $Ix:ty, |$g:ident, $abs:ident, $conc:ident, $eid:ident| $body:expr) => {{
+        let j = enc_junk_graph::<$Ty, $Ix>($rng, $ag, &$o, false, true);
+        adapt_one!(@ef "Graph", j, $ctx, $ag, $Ix, |$g, $abs, $conc, $eid| $body)
+    }};
+    (EfStable, $ctx:expr, $rng:expr, $ag:expr, $o:expr, $Ty:ty, $Ix:ty, |$g:ident, $abs:ident, $conc:ident, $eid:ident| $body:expr) => {{
+        let j = enc_junk_stable::<$Ty, $Ix>($rng, $ag, &$o, false, true);
+        adapt_one!(@ef "StableGraph", j, $ctx, $ag, $Ix, |$g, $abs, $conc, $eid| $body)
+    }};
+    (@ef $base:expr, $j:ident, $ctx:expr, $ag:expr, $Ix:ty, |$g:ident, $abs:ident, $conc:ident, $eid:ident| $body:expr) => {{
+        let ef = EdgeFiltered::from_fn(&$j.g, |e| *EdgeRef::weight(&e) != JUNKW);
+        let $g = &ef;
+        let cidx: Vec<NodeIndex<$Ix>> = {
+            let mut v = vec![NodeIndex::<$Ix>::new(0); $ag.n];
+            for x in $j.g.node_indices() {
+                if $j.g[x] != JUNKN { v[$j.g[x]] = x; }
+            }
+            v
+        };
+        let $abs = |x: NodeIndex<$Ix>| $j.g[x];
+        let $conc = |a: usize| cidx[a];
+        let $eid = |k: usize| $j.eid[k];
+        note($ctx, &format!("adaptor=EdgeFiltered base={} junk_edges={}", $base, $j.eid.iter().filter(|&&k| k == usize::MAX).count()));
+        $ctx.line(&view_line($ag, $g, &$abs, &|er, _| $j.eid[EdgeRef::id(&er).index()]), "ok");
+        let _ = (&$abs, &$conc, &$eid);
+        $body
+    }};
+    (NfGraph, $ctx:expr, $rng:expr, $ag:expr, $o:expr, $Ty:ty, $Ix:ty, |$g:ident, $abs:ident, $conc:ident, $eid:ident| $body:expr) => {{
+        let j = enc_junk_graph::<$Ty, $Ix>($rng, $ag, &$o, true, false);
+        adapt_one!(@nf "Graph", j, $ctx, $ag, $Ix, |$g, $abs, $conc, $eid| $body)
+    }};
+    (NfStable, $ctx:expr, $rng:expr, $ag:expr, $o:expr, $Ty:ty, $Ix:ty, |$g:ident, $abs:ident, $conc:ident, $eid:ident| $body:expr) => {{
+        let j = enc_junk_stable::<$Ty, $Ix>($rng, $ag, &$o, true, false);
+        adapt_one!(@nf "StableGraph", j, $ctx, $ag, $Ix, |$g, $abs, $conc, $eid| $body)
+    }};
+    (@nf $base:expr, $j:ident, $ctx:expr, $ag:expr, $Ix:ty, |$g:ident, $abs:ident, $conc:ident, $eid:ident| $body:expr) => {{
+        let nf = NodeFiltered::from_fn(&$j.g, |x: NodeIndex<$Ix>| $j.g[x] != JUNKN);
+        let $g = &nf;
+        let cidx: Vec<NodeIndex<$Ix>> = {
+            let mut v = vec![NodeIndex::<$Ix>::new(0); $ag.n];
+            for x in $j.g.node_indices() {
+                if $j.g[x] != JUNKN { v[$j.g[x]] = x; }
+            }
+            v
+        };
+        let $abs = |x: NodeIndex<$Ix>| $j.g[x];
+        let $conc = |a: usize| cidx[a];
+        let $eid = |k: usize| $j.eid[k];
+        note($ctx, &format!("adaptor=NodeFiltered base={} junk_nodes={}", $base, $j.g.node_count() - $ag.n));
+        $ctx.line(&view_line($ag, $g, &$abs, &|er, _| $j.eid[EdgeRef::id(&er).index()]), "ok");
+        let _ = (&$abs, &$conc, &$eid);
+        $body
+    }};
+    // an undirected abstract graph seen through `UndirectedAdaptor` over ONE orientation of it
+    (UndGraph, $ctx:expr, $rng:expr, $ag:expr, $o:expr, $Ty:ty, $Ix:ty, |$g:ident, $abs:ident, $conc:ident, $eid:ident| $body:expr) => {{
+        let oag = orient_ag($rng, $ag);
+        let e = enc_graph::<Directed, $Ix>(&oag, &$o.node_order, &$o.edge_order);
+        let $g = UndirectedAdaptor(&e.g);
+        let $abs = |x: NodeIndex<$Ix>| e.g[x];
+        let $conc = |a: usize| NodeIndex::<$Ix>::new($o.inv[a]);
+        let $eid = |k: usize| e.eid[k];
+        note($ctx, "adaptor=UndirectedAdaptor base=Graph");
+        $ctx.line(&view_line_out_only($ag, $g, &$abs, &|er, _| e.eid[EdgeRef::id(&er).index()]), "ok");
+        let _ = (&$abs, &$conc, &$eid);
+        $body
+    }};
+}
+
+/// picks one of the listed adaptor kinds by `$pick`
+macro_rules! adapt {
+    ([$($k:ident),+], $pick:expr, $ctx:expr, $rng:expr, $ag:expr, $o:expr, $Ty:ty, $Ix:ty, |$g:ident, $abs:ident, $conc:ident, $eid:ident| $body:expr) => {{
+        let kinds: &[&str] = &[$(stringify!($k)),+];
+        let which = kinds[$pick % kinds.len()];
+        $( if which == stringify!($k) { adapt_one!($k, $ctx, $rng, $ag, $o, $Ty, $Ix, |$g, $abs, $conc, $eid| $body) } )+
+    }};
+}
+
 fn lists(v: Vec<Vec<usize>>) -> String {
     if v.is_empty() {
         "-".into()
@@ -162,6 +478,21 @@ where
     let eorder: Vec<usize> = g.edge_references().map(|e| eabs(e)).collect();
     let r = catch(|| greedy_feedback_arc_set(g).map(|e| eabs(e)).collect::<Vec<usize>>());
     ctx.line(&format!("fas eorder={}", list(eorder)), &r.map(list).unwrap_or("panic".into()));
+    // the returned `impl Iterator`: the Iterator contract, whatever way it is consumed
+    let l = catch(|| regen_laws(&|| greedy_feedback_arc_set(g), &|e| eabs(e), 200));
+    law(ctx, "fas-iter", l.unwrap_or(Some("a consumer of the iterator panicked".into())));
+}
+
+/// tiny directed multigraphs: 0, 1 or 2 nodes, loops and parallel edges
+fn tiny_multi(rng: &mut Rng, directed: bool) -> AG {
+    let n = rng.below(3);
+    let mut edges = Vec::new();
+    if n > 0 {
+        for _ in 0..rng.below(5) {
+            edges.push((rng.below(n), rng.below(n), 1));
+        }
+    }
+    AG { directed, n, edges }
 }
 
 fn case_fas(ctx: &mut Ctx, rng: &mut Rng) {
@@ -169,14 +500,45 @@ fn case_fas(ctx: &mut Ctx, rng: &mut Rng) {
     let opts = if rng.chance(65) { GenOpts::multi(max_n, 1, 1) } else { GenOpts { loops: rng.chance(50), ..GenOpts::simple(max_n) } };
     // cyclic families (gnp-mid, gnp-dense, cliques, multi, cycle, complete, two-comp) are up-weighted
     let fam = if rng.chance(60) { *rng.pick(&[1usize, 2, 2, 5, 8, 8, 10, 11, 15]) } else { rng.below(NFAMILIES) };
-    let ag = gen_family(rng, true, fam, opts);
+    let mut ag = gen_family(rng, true, fam, opts);
+    if rng.chance(5) {
+        ag = tiny_multi(rng, true);
+        note(ctx, &format!("corner=tiny n={} m={}", ag.n, ag.edges.len()));
+    }
     let ag = &ag;
     let o = orders(rng, ag);
-    match rng.below(4) {
+    let simple = ag.is_simple();
+    let choice = rng.below(if simple { 10 } else { 8 });
+    note(ctx, &format!("fas enc={}", ["Graph-u32", "Graph-u8", "Stable-u32", "Stable-u16", "Graph-usize", "adaptor", "adaptor", "adaptor", "Matrix", "Reversed-Matrix"][choice]));
+    match choice {
         0 => with_graph!(Directed, u32, ctx, ag, o, |g, abs, conc, eid| fas_on(ctx, g, &|e| eid(e.id().index()))),
         1 => with_graph!(Directed, u8, ctx, ag, o, |g, abs, conc, eid| fas_on(ctx, g, &|e| eid(e.id().index()))),
         2 => with_stable!(Directed, u32, true, ctx, rng, ag, o, |g, abs, conc, eid| fas_on(ctx, g, &|e| eid(e.id().index()))),
-        _ => with_stable!(Directed, u16, true, ctx, rng, ag, o, |g, abs, conc, eid| fas_on(ctx, g, &|e| eid(e.id().index()))),
+        3 => with_stable!(Directed, u16, true, ctx, rng, ag, o, |g, abs, conc, eid| fas_on(ctx, g, &|e| eid(e.id().index()))),
+        4 => with_graph!(Directed, usize, ctx, ag, o, |g, abs, conc, eid| fas_on(ctx, g, &|e| eid(e.id().index()))),
+        5 | 6 | 7 => {
+            let pick = rng.below(6);
+            adapt!([RevGraph, RevStable, FrozenGraph, FrozenStable, EfGraph, EfStable], pick, ctx, rng, ag, o, Directed, u32, |g, abs, conc, eid| fas_on(
+                ctx,
+                g,
+                &|e| eid(e.id().index())
+            ))
+        }
+        8 => with_matrix!(Directed, true, ctx, rng, ag, o, |g, abs, conc| fas_on(ctx, g, &|e| eid_by_lookup(ag, abs(e.source()), abs(e.target()), *e.weight(), &mut Vec::new()))),
+        _ => {
+            // Reversed over a directed MatrixGraph (edge_references of Reversed does not go through the
+            // Incoming iteration of finding D6)
+            let rag = rev_ag(ag);
+            let g0 = enc_matrix::<Directed>(rng, &rag, &o.node_order, &o.edge_order, true);
+            let g = Reversed(&g0);
+            let abs = |x: petgraph::matrix_graph::NodeIndex| *g0.node_weight(x);
+            ctx.line(&view_line(ag, g, &abs, &|er, used| {
+                let (s, t) = (abs(er.source()), abs(er.target()));
+                let k = eid_by_lookup(ag, s, t, *er.weight(), used);
+                if k != usize::MAX { k } else { eid_by_lookup(ag, t, s, *er.weight(), used) }
+            }), "ok");
+            fas_on(ctx, g, &|e| eid_by_lookup(ag, abs(e.source()), abs(e.target()), *e.weight(), &mut Vec::new()))
+        }
     }
 }
 
@@ -197,24 +559,74 @@ where
     ctx.line("dsatur", &r.unwrap_or("panic".into()));
 }
 
-fn gen_undirected_simple(ctx: &Ctx, rng: &mut Rng, max_quick: usize, max_thorough: usize) -> AG {
+/// tiny undirected simple graphs: 0, 1 or 2 nodes
+fn tiny_simple(rng: &mut Rng) -> AG {
+    let n = rng.below(3);
+    let edges = if n == 2 && rng.chance(50) { vec![(0, 1, 1)] } else { vec![] };
+    AG { directed: false, n, edges }
+}
+
+fn gen_undirected_simple(ctx: &mut Ctx, rng: &mut Rng, max_quick: usize, max_thorough: usize) -> AG {
     let max_n = if ctx.tier_thorough { max_thorough } else { max_quick };
+    if rng.chance(4) {
+        let ag = tiny_simple(rng);
+        note(ctx, &format!("corner=tiny n={} m={}", ag.n, ag.edges.len()));
+        return ag;
+    }
     // bipartite-ish families are up-weighted: family 6 (bipartite), 3 (forest), 7 (grid), 9, 10, 13
     let fam = if rng.chance(35) { *rng.pick(&[6usize, 6, 3, 7, 9, 10, 13]) } else { rng.below(NFAMILIES) };
     gen_family(rng, false, fam, GenOpts::simple(max_n))
+}
+
+/// GraphMap with a non-default hasher
+fn enc_map_fx<Ty: EdgeType>(ag: &AG, o: &Orders) -> petgraph::graphmap::GraphMap<usize, i64, Ty, fxhash::FxBuildHasher> {
+    let mut g = petgraph::graphmap::GraphMap::<usize, i64, Ty, fxhash::FxBuildHasher>::default();
+    for &a in &o.node_order {
+        g.add_node(a);
+    }
+    for &k in &o.edge_order {
+        let (a, b, w) = ag.edges[k];
+        g.add_edge(a, b, w);
+    }
+    g
+}
+
+macro_rules! with_map_fx {
+    ($Ty:ty, $ctx:expr, $ag:expr, $o:expr, |$g:ident, $abs:ident, $conc:ident| $body:expr) => {{
+        let g0 = enc_map_fx::<$Ty>($ag, &$o);
+        let $g = &g0;
+        let $abs = |x: usize| x;
+        let $conc = |a: usize| a;
+        $ctx.line(
+            &view_line($ag, $g, &$abs, &|er, used| eid_by_lookup($ag, EdgeRef::source(&er), EdgeRef::target(&er), *EdgeRef::weight(&er), used)),
+            "ok",
+        );
+        let _ = (&$abs, &$conc);
+        $body
+    }};
 }
 
 fn case_dsatur(ctx: &mut Ctx, rng: &mut Rng) {
     let ag = gen_undirected_simple(ctx, rng, 10, 12);
     let ag = &ag;
     let o = orders(rng, ag);
-    match rng.below(7) {
+    let choice = rng.below(12);
+    note(ctx, &format!("dsatur enc={}", ["Graph-u32", "Graph-u8", "Stable-u32", "Stable-u32", "Matrix", "Map", "Csr", "Graph-usize", "Map-fxhash", "adaptor", "adaptor", "adaptor"][choice]));
+    match choice {
         0 => with_graph!(Undirected, u32, ctx, ag, o, |g, abs, conc, eid| dsatur_on(ctx, g, &abs)),
         1 => with_graph!(Undirected, u8, ctx, ag, o, |g, abs, conc, eid| dsatur_on(ctx, g, &abs)),
         2 | 3 => with_stable!(Undirected, u32, true, ctx, rng, ag, o, |g, abs, conc, eid| dsatur_on(ctx, g, &abs)),
         4 => with_matrix!(Undirected, true, ctx, rng, ag, o, |g, abs, conc| dsatur_on(ctx, g, &abs)),
         5 => with_map!(Undirected, ctx, ag, o, |g, abs, conc| dsatur_on(ctx, g, &abs)),
-        _ => with_csr!(Undirected, ctx, ag, o, |g, abs, conc| dsatur_on(ctx, g, &abs)),
+        6 => with_csr!(Undirected, ctx, ag, o, |g, abs, conc| dsatur_on(ctx, g, &abs)),
+        7 => with_graph!(Undirected, usize, ctx, ag, o, |g, abs, conc, eid| dsatur_on(ctx, g, &abs)),
+        8 => with_map_fx!(Undirected, ctx, ag, o, |g, abs, conc| dsatur_on(ctx, g, &abs)),
+        _ => {
+            let pick = rng.below(9);
+            adapt!([RevGraph, RevStable, FrozenGraph, FrozenStable, EfGraph, EfStable, NfGraph, NfStable, UndGraph], pick, ctx, rng, ag, o, Undirected, u32, |g, abs, conc, eid| dsatur_on(
+                ctx, g, &abs
+            ))
+        }
     }
 }
 
@@ -236,6 +648,62 @@ fn adj_list_string<Ix: IndexType>(l: &petgraph::adj::UnweightedList<Ix>) -> Stri
     }
 }
 
+fn list_rows<E, Ix: IndexType>(l: &petgraph::adj::List<E, Ix>) -> Vec<Vec<usize>> {
+    l.node_indices().map(|i| l.neighbors(i).map(|x| x.index()).collect()).collect()
+}
+
+/// the result type of tred (`adj::List`) observed through ALL of its public readers: the iterator contracts
+/// of `node_indices` / `neighbors` / `edge_indices_from` / `edge_indices` / `edge_references`, and
+/// `edge_count` / `contains_edge` / `find_edge` / `edge_endpoints` describing the same rows
+fn list_laws<E: PartialEq + Debug + Clone, Ix: IndexType>(l: &petgraph::adj::List<E, Ix>) -> Option<String> {
+    if let Some(e) = iter_laws_de(l.node_indices()).or_else(|| iter_laws_exact(l.node_indices())) {
+        return Some(format!("node_indices: {}", e));
+    }
+    let rows = list_rows(l);
+    let n = rows.len();
+    if l.node_count() != n {
+        return Some(format!("node_count() = {} but node_indices yields {} nodes", l.node_count(), n));
+    }
+    let total: usize = rows.iter().map(|r| r.len()).sum();
+    if l.edge_count() != total {
+        return Some(format!("edge_count() = {} but the rows hold {} edges", l.edge_count(), total));
+    }
+    if let Some(e) = iter_laws(l.edge_indices()) {
+        return Some(format!("edge_indices: {}", e));
+    }
+    if let Some(e) = iter_laws(l.edge_references()) {
+        return Some(format!("edge_references: {}", e));
+    }
+    let refs: Vec<(usize, usize)> = l.edge_references().map(|e| (e.source().index(), e.target().index())).collect();
+    let want: Vec<(usize, usize)> = rows.iter().enumerate().flat_map(|(i, r)| r.iter().map(move |&x| (i, x))).collect();
+    if refs != want {
+        return Some(format!("edge_references yields {:?}, the rows are {:?}", refs, want));
+    }
+    let ends: Vec<(usize, usize)> = l.edge_indices().map(|e| l.edge_endpoints(e).map_or((usize::MAX, usize::MAX), |(a, b)| (a.index(), b.index()))).collect();
+    if ends != want {
+        return Some(format!("edge_indices + edge_endpoints yield {:?}, the rows are {:?}", ends, want));
+    }
+    for i in l.node_indices() {
+        if let Some(e) = iter_laws_de(l.neighbors(i)).or_else(|| iter_laws_exact(l.neighbors(i))) {
+            return Some(format!("neighbors({}): {}", i.index(), e));
+        }
+        if let Some(e) = iter_laws(l.edge_indices_from(i)) {
+            return Some(format!("edge_indices_from({}): {}", i.index(), e));
+        }
+        let from: Vec<usize> = l.edge_indices_from(i).map(|e| l.edge_endpoints(e).map_or(usize::MAX, |(_, b)| b.index())).collect();
+        if from != rows[i.index()] {
+            return Some(format!("edge_indices_from({}) leads to {:?}, neighbors to {:?}", i.index(), from, rows[i.index()]));
+        }
+        for x in l.node_indices() {
+            let has = rows[i.index()].contains(&x.index());
+            if l.contains_edge(i, x) != has || l.find_edge(i, x).is_some() != has {
+                return Some(format!("contains_edge / find_edge({}, {}) disagree with neighbors({})", i.index(), x.index(), i.index()));
+            }
+        }
+    }
+    None
+}
+
 fn tred_on<G, Ix: IndexType>(ctx: &mut Ctx, g: G, ag: &AG, topo: &[usize], conc: &dyn Fn(usize) -> G::NodeId)
 where
     G: IntoNeighborsDirected + NodeCompactIndexable + NodeCount,
@@ -246,16 +714,126 @@ where
         let (res, revmap): (petgraph::adj::UnweightedList<Ix>, Vec<Ix>) = dag_to_toposorted_adjacency_list(g, &ts);
         let (red, clo) = dag_transitive_reduction_closure(&res);
         let rm: Vec<String> = (0..ag.n).map(|a| format!("{}:{}", a, revmap[conc(a).index()].index())).collect();
-        format!(
+        let ans = format!(
             "revmap={} len={} res={} red={} clo={}",
             list(rm),
             revmap.len(),
             adj_list_string(&res),
             adj_list_string(&red),
             adj_list_string(&clo)
-        )
+        );
+        // (a) the three result lists through every reader of adj::List
+        let mut l = None;
+        for (nm, lst) in [("res", &res), ("red", &red), ("clo", &clo)] {
+            if l.is_none() {
+                l = list_laws(lst).map(|e| format!("{}: {}", nm, e));
+            }
+        }
+        // (b) `dag_transitive_reduction_closure` is generic in the list's edge weight and index type: a
+        // hand-built weighted `List<i64, u16>` of the same toposorted graph must give the same answer
+        let mut direct = petgraph::adj::List::<i64, u16>::with_capacity(ag.n);
+        for _ in 0..ag.n {
+            direct.add_node();
+        }
+        let mut rank = vec![0usize; ag.n];
+        for (r, &a) in topo.iter().enumerate() {
+            rank[a] = r;
+        }
+        let mut es: Vec<(usize, usize, i64)> = ag.edges.iter().map(|&(a, b, w)| (rank[a], rank[b], w)).collect();
+        es.sort();
+        for (a, b, w) in es {
+            direct.add_edge(a as u16, b as u16, w);
+        }
+        let (red2, clo2) = dag_transitive_reduction_closure(&direct);
+        let l2 = if list_rows(&red2) != list_rows(&red) || list_rows(&clo2) != list_rows(&clo) {
+            Some(format!("on a hand-built List<i64, u16>: red={} clo={}; through dag_to_toposorted_adjacency_list: red={} clo={}", adj_list_string(&red2), adj_list_string(&clo2), adj_list_string(&red), adj_list_string(&clo)))
+        } else {
+            list_laws(&red2).or_else(|| list_laws(&clo2))
+        };
+        (ans, l, l2)
     });
-    ctx.line(&format!("tred topo={}", list(topo.iter())), &r.unwrap_or("panic".into()));
+    match r {
+        Some((ans, l, l2)) => {
+            ctx.line(&format!("tred topo={}", list(topo.iter())), &ans);
+            law(ctx, "tred-list-readers", l);
+            law(ctx, "tred-weighted-list", l2);
+        }
+        None => ctx.line(&format!("tred topo={}", list(topo.iter())), "panic"),
+    }
+}
+
+/// capacity corner of the OUTPUT index type: a DAG with 255 / 256 / 257 nodes, output `List<(), u8>`.
+/// `adj::List<_, u8>` holds 256 nodes (there is no reserved index); one more is the documented panic of
+/// `add_node`.  Too large for the brute-force judge: the u8 answer is compared with the u32 answer and
+/// with a closure / reduction computed here from the definition.
+fn tred_capacity(ctx: &mut Ctx, rng: &mut Rng) {
+    let n = *rng.pick(&[255usize, 256, 256, 257]);
+    let hidden = random_perm(rng, n);
+    let mut edges: Vec<(usize, usize)> = Vec::new();
+    for i in 0..n - 1 {
+        if rng.chance(85) {
+            edges.push((i, i + 1));
+        }
+    }
+    for _ in 0..60 {
+        let (a, b) = (rng.below(n), rng.below(n));
+        if a < b && !edges.contains(&(a, b)) {
+            edges.push((a, b));
+        }
+    }
+    rng.shuffle(&mut edges);
+    let mut g = Graph::<(), (), Directed, u16>::with_capacity(0, 0);
+    for _ in 0..n {
+        g.add_node(());
+    }
+    for &(a, b) in &edges {
+        g.add_edge(NodeIndex::new(hidden[a]), NodeIndex::new(hidden[b]), ());
+    }
+    let topo: Vec<NodeIndex<u16>> = (0..n).map(|r| NodeIndex::new(hidden[r])).collect();
+    // reference from the definition (ranks): reach[u] = set of v > u reachable by >= 1 edge
+    let mut succ = vec![Vec::new(); n];
+    for &(a, b) in &edges {
+        succ[a].push(b);
+    }
+    let mut reach = vec![vec![false; n]; n];
+    for u in (0..n).rev() {
+        for &v in &succ[u] {
+            reach[u][v] = true;
+            for w in 0..n {
+                if reach[v][w] {
+                    reach[u][w] = true;
+                }
+            }
+        }
+    }
+    let want_clo: Vec<Vec<usize>> = (0..n).map(|u| (0..n).filter(|&v| reach[u][v]).collect()).collect();
+    let want_red: Vec<Vec<usize>> = (0..n).map(|u| (0..n).filter(|&v| reach[u][v] && !(0..n).any(|w| reach[u][w] && reach[w][v])).collect()).collect();
+    let sorted = |mut rows: Vec<Vec<usize>>| {
+        for r in rows.iter_mut() {
+            r.sort();
+        }
+        rows
+    };
+    let run32 = catch(|| {
+        let (res, revmap): (petgraph::adj::UnweightedList<u32>, Vec<u32>) = dag_to_toposorted_adjacency_list(&g, &topo);
+        let (red, clo) = dag_transitive_reduction_closure(&res);
+        (revmap.iter().map(|x| x.index()).collect::<Vec<_>>(), list_rows(&res), list_rows(&red), list_rows(&clo))
+    });
+    let run8 = catch(|| {
+        let (res, revmap): (petgraph::adj::UnweightedList<u8>, Vec<u8>) = dag_to_toposorted_adjacency_list(&g, &topo);
+        let (red, clo) = dag_transitive_reduction_closure(&res);
+        (revmap.iter().map(|x| x.index()).collect::<Vec<_>>(), list_rows(&res), list_rows(&red), list_rows(&clo))
+    });
+    let verdict = match (&run32, &run8) {
+        (None, _) => Some("panicked with a u32 output index".to_string()),
+        (Some(a), _) if sorted(a.2.clone()) != want_red || sorted(a.3.clone()) != want_clo => Some("u32 output: reduction or closure differ from the definition".to_string()),
+        (Some(a), _) if (0..n).any(|r| a.0[hidden[r]] != r) => Some("u32 output: revmap is not the inverse of the toposort".to_string()),
+        (Some(_), None) if n <= 256 => Some(format!("panicked with a u8 output index although {} nodes fit (indices 0..=255)", n)),
+        (Some(_), Some(_)) if n > 256 => Some(format!("{} nodes accepted by a u8 output index (documented panic of List::add_node)", n)),
+        (Some(a), Some(b)) if a != b => Some("the answer depends on the output index type (u8 vs u32)".to_string()),
+        _ => None,
+    };
+    law(ctx, &format!("tred-capacity-u8 n={}", n), verdict);
 }
 
 /// a DAG on a hidden order; returns the graph and a random linear extension of it
@@ -302,15 +880,41 @@ fn gen_dag(ctx: &Ctx, rng: &mut Rng) -> (AG, Vec<usize>) {
 }
 
 fn case_tred(ctx: &mut Ctx, rng: &mut Rng) {
+    if rng.chance(2) {
+        note(ctx, "corner=capacity-u8");
+        tred_capacity(ctx, rng);
+    }
     let (ag, topo) = gen_dag(ctx, rng);
     let ag = &ag;
     let o = orders(rng, ag);
     let simple = ag.is_simple();
-    let choice = if simple { rng.below(4) } else { rng.below(3) };
+    let choice = if simple { rng.below(9) } else { rng.below(8) };
+    note(ctx, &format!("tred n={} enc={}", ag.n, ["Graph-u32/out-u32", "Graph-u8/out-u8", "Graph-u16/out-usize", "Graph-usize/out-u8", "adaptor", "adaptor", "Acyclic", "Acyclic", "Map/out-u16"][choice]));
     match choice {
         0 => with_graph!(Directed, u32, ctx, ag, o, |g, abs, conc, eid| tred_on::<_, u32>(ctx, g, ag, &topo, &conc)),
         1 => with_graph!(Directed, u8, ctx, ag, o, |g, abs, conc, eid| tred_on::<_, u8>(ctx, g, ag, &topo, &conc)),
         2 => with_graph!(Directed, u16, ctx, ag, o, |g, abs, conc, eid| tred_on::<_, usize>(ctx, g, ag, &topo, &conc)),
+        3 => with_graph!(Directed, usize, ctx, ag, o, |g, abs, conc, eid| tred_on::<_, u8>(ctx, g, ag, &topo, &conc)),
+        4 | 5 => {
+            let pick = rng.below(3);
+            adapt!([RevGraph, FrozenGraph, EfGraph], pick, ctx, rng, ag, o, Directed, u32, |g, abs, conc, eid| tred_on::<_, u16>(ctx, g, ag, &topo, &conc))
+        }
+        6 | 7 => {
+            // `Acyclic<DiGraph>`: the wrapper's own topological order (`nodes_iter`) is the toposort handed in
+            let e = enc_graph::<Directed, u32>(ag, &o.node_order, &o.edge_order);
+            let eidv = e.eid.clone();
+            match Acyclic::try_from_graph(e.g) {
+                Err(_) => law(ctx, "acyclic-accepts-dag", Some("Acyclic::try_from_graph rejected a DAG".into())),
+                Ok(acy) => {
+                    let g = &acy;
+                    let abs = |x: NodeIndex<u32>| acy[x];
+                    let conc = |a: usize| NodeIndex::<u32>::new(o.inv[a]);
+                    ctx.line(&view_line(ag, acy.inner(), &abs, &|er, _| eidv[EdgeRef::id(&er).index()]), "ok");
+                    let topo2: Vec<usize> = acy.nodes_iter().map(|x| abs(x)).collect();
+                    tred_on::<_, u32>(ctx, g, ag, &topo2, &conc)
+                }
+            }
+        }
         _ => with_map!(Directed, ctx, ag, o, |g, abs, conc| tred_on::<_, u16>(ctx, g, ag, &topo, &conc)),
     }
 }
@@ -346,33 +950,50 @@ fn case_cliques(ctx: &mut Ctx, rng: &mut Rng) {
     let max_n = if ctx.tier_thorough { 11 } else { 9 };
     let fam = if rng.chance(35) { *rng.pick(&[5usize, 5, 2, 11, 1]) } else { rng.below(NFAMILIES) };
     let mut ag = gen_family(rng, false, fam, GenOpts::simple(max_n));
-    if rng.chance(4) {
-        ag = AG { directed: false, n: 0, edges: vec![] };
+    if rng.chance(5) {
+        ag = tiny_simple(rng);
+        note(ctx, &format!("corner=tiny n={} m={}", ag.n, ag.edges.len()));
     }
     let ag = &ag;
     let o = orders(rng, ag);
-    match rng.below(7) {
+    let choice = rng.below(11);
+    note(ctx, &format!("cliques enc={}", ["Graph-u32", "Graph-u8", "Stable-u32", "Stable-u32", "Matrix", "Map", "Csr", "Graph-usize", "Map-fxhash", "adaptor", "adaptor"][choice]));
+    match choice {
         0 => with_graph!(Undirected, u32, ctx, ag, o, |g, abs, conc, eid| cliques_on(ctx, g, &abs)),
         1 => with_graph!(Undirected, u8, ctx, ag, o, |g, abs, conc, eid| cliques_on(ctx, g, &abs)),
         2 | 3 => with_stable!(Undirected, u32, true, ctx, rng, ag, o, |g, abs, conc, eid| cliques_on(ctx, g, &abs)),
         4 => with_matrix!(Undirected, true, ctx, rng, ag, o, |g, abs, conc| cliques_on(ctx, g, &abs)),
         5 => with_map!(Undirected, ctx, ag, o, |g, abs, conc| cliques_on(ctx, g, &abs)),
-        _ => with_csr!(Undirected, ctx, ag, o, |g, abs, conc| cliques_on(ctx, g, &abs)),
+        6 => with_csr!(Undirected, ctx, ag, o, |g, abs, conc| cliques_on(ctx, g, &abs)),
+        7 => with_graph!(Undirected, usize, ctx, ag, o, |g, abs, conc, eid| cliques_on(ctx, g, &abs)),
+        8 => with_map_fx!(Undirected, ctx, ag, o, |g, abs, conc| cliques_on(ctx, g, &abs)),
+        _ => {
+            let pick = rng.below(4);
+            adapt!([RevGraph, RevStable, FrozenGraph, FrozenStable], pick, ctx, rng, ag, o, Undirected, u32, |g, abs, conc, eid| cliques_on(ctx, g, &abs))
+        }
     }
 }
 
 // ------------------------------------------------------------------------------------------------
 // (5) all_simple_paths — directed graphs, a != b and a == b, all bounds
 
-fn paths_on<G>(ctx: &mut Ctx, rng: &mut Rng, g: G, n: usize, abs: &dyn Fn(G::NodeId) -> usize, conc: &dyn Fn(usize) -> G::NodeId)
-where
+fn paths_on<G>(
+    ctx: &mut Ctx,
+    rng: &mut Rng,
+    g: G,
+    n: usize,
+    abs: &dyn Fn(G::NodeId) -> usize,
+    conc: &dyn Fn(usize) -> G::NodeId,
+    absent: &dyn Fn(&mut Rng) -> G::NodeId,
+) where
     G: IntoNeighborsDirected + NodeCount + Copy,
-    G::NodeId: Eq + Hash,
+    G::NodeId: Eq + Hash + Debug,
 {
     if n == 0 {
         return;
     }
-    for _ in 0..4 {
+    let law_query = rng.below(4);
+    for q in 0..4 {
         let mut a = rng.below(n);
         let mut b = rng.below(n);
         // 15 % (always on a one-node graph): from == to — the iterator then yields the simple cycles
@@ -426,22 +1047,60 @@ where
         } else if b == a {
             b = (a + 1) % n;
         }
-        let min = if rng.chance(55) { 0 } else { rng.below(n) };
+        // 7 %: a target that is not a node of the graph (beyond the bound, a removed / stale id): there is
+        // no path to it, whatever the bounds; printed as abstract id `n`
+        let absent_to = !cyc && rng.chance(7);
+        let cb = if absent_to { b = n; absent(rng) } else { conc(b) };
+        let mut min = if rng.chance(55) { 0 } else { rng.below(n) };
         let mut max: Option<usize> = if rng.chance(40) { None } else { Some(rng.below(n + 1)) };
+        // bounds corners: max = 0 (only the direct step), min one above max (nothing qualifies), min = max
+        match rng.below(20) {
+            0 => max = Some(0),
+            1 => { let m = rng.below(n); max = Some(m); min = m + 1; }
+            2 => { let m = rng.below(n); max = Some(m); min = m; }
+            3 => { min = n - 1 + rng.below(2); max = None; } // as many / more intermediate nodes than the graph can offer
+            _ => {}
+        }
         // from == to on 8 nodes: a dense graph has > 10^4 simple cycles through one node; keep the answer
         // (and the judge's enumeration) small by bounding the number of intermediate nodes
         if cyc && n >= 8 && max.map_or(true, |m| m > 4) {
             max = Some(rng.below(5));
         }
+        let ca = conc(a);
         let r = catch(|| {
-            let ps: Vec<Vec<usize>> = all_simple_paths::<Vec<_>, _, RandomState>(g, conc(a), conc(b), min, max)
+            let ps: Vec<Vec<usize>> = all_simple_paths::<Vec<_>, _, RandomState>(g, ca, cb, min, max)
                 .take(5000)
                 .map(|p: Vec<G::NodeId>| p.into_iter().map(|x| abs(x)).collect())
                 .collect();
-            lists(ps)
+            ps
         });
         let ms = match max { Some(m) => m.to_string(), None => "none".into() };
-        ctx.line(&format!("paths {} {} {} {}", a, b, min, ms), &r.unwrap_or("panic".into()));
+        if min > max.unwrap_or(usize::MAX) { note(ctx, "corner=min>max"); }
+        if absent_to { note(ctx, "corner=absent-target"); }
+        let small = r.as_ref().map_or(false, |ps| ps.len() <= 40);
+        ctx.line(&format!("paths {} {} {} {}", a, b, min, ms), &r.map(lists).unwrap_or("panic".into()));
+        if q == law_query && small {
+            // the returned `impl Iterator`, consumed in every way the Iterator trait offers
+            let l = catch(|| regen_laws(&|| all_simple_paths::<Vec<G::NodeId>, _, RandomState>(g, ca, cb, min, max), &|p| p, 40));
+            law(ctx, "paths-iter", l.unwrap_or(Some("a consumer of the iterator panicked".into())));
+            // the answer must not depend on the target collection or on the hasher of the visited set
+            let l = catch(|| {
+                let v: Vec<Vec<G::NodeId>> = all_simple_paths::<Vec<_>, _, RandomState>(g, ca, cb, min, max).collect();
+                let d: Vec<VecDeque<G::NodeId>> = all_simple_paths::<VecDeque<_>, _, fxhash::FxBuildHasher>(g, ca, cb, min, max).collect();
+                let h: Vec<HashSet<G::NodeId>> = all_simple_paths::<HashSet<_>, _, ahash::RandomState>(g, ca, cb, min, max).collect();
+                let bx: Vec<Box<[G::NodeId]>> = all_simple_paths::<Box<[_]>, _, std::hash::BuildHasherDefault<std::collections::hash_map::DefaultHasher>>(g, ca, cb, min, max).collect();
+                if d.len() != v.len() || d.iter().zip(&v).any(|(x, y)| !x.iter().eq(y.iter())) {
+                    Some(format!("TargetColl = VecDeque / FxBuildHasher yields {:?}, Vec / RandomState yields {:?}", d, v))
+                } else if h.len() != v.len() || h.iter().zip(&v).any(|(x, y)| *x != y.iter().cloned().collect::<HashSet<_>>()) {
+                    Some(format!("TargetColl = HashSet / ahash yields {:?}, Vec / RandomState yields {:?}", h, v))
+                } else if bx.len() != v.len() || bx.iter().zip(&v).any(|(x, y)| x[..] != y[..]) {
+                    Some(format!("TargetColl = Box<[_]> / SipHash yields {:?}, Vec / RandomState yields {:?}", bx, v))
+                } else {
+                    None
+                }
+            });
+            law(ctx, "paths-collection-and-hasher", l.unwrap_or(Some("panicked".into())));
+        }
         if n == 1 {
             break; // a one-node graph has one interesting query
         }
@@ -453,38 +1112,84 @@ fn case_paths(ctx: &mut Ctx, rng: &mut Rng) {
     let multi = rng.chance(30);
     let opts = if multi { GenOpts::multi(max_n.min(6), 1, 1) } else { GenOpts { loops: rng.chance(30), ..GenOpts::simple(max_n) } };
     let fam = if rng.chance(60) { *rng.pick(&[1usize, 1, 2, 2, 4, 5, 8, 11, 14, 15]) } else { rng.below(NFAMILIES) };
-    let ag = gen_family(rng, true, fam, opts);
+    let mut ag = gen_family(rng, true, fam, opts);
+    if rng.chance(4) {
+        ag = tiny_multi(rng, true);
+        note(ctx, &format!("corner=tiny n={} m={}", ag.n, ag.edges.len()));
+    }
     let ag = &ag;
     let n = ag.n;
     let o = orders(rng, ag);
     let simple = ag.is_simple();
-    let choice = if simple { rng.below(6) } else { rng.below(4) };
+    let choice = if simple { rng.below(13) } else { rng.below(9) };
+    note(ctx, &format!("paths n={} enc={}", n, ["Graph-u32", "Graph-u8", "Stable-u32", "Stable-u32", "Graph-usize", "adaptor", "adaptor", "adaptor", "Stable-u8", "Map", "Matrix", "Reversed-Matrix", "Reversed-Map"][choice]));
+    macro_rules! beyond {
+        ($g:ident, $Ix:ty) => {
+            &|r: &mut Rng| NodeIndex::<$Ix>::new(NodeIndexable::node_bound(&$g) + r.below(3))
+        };
+    }
+    macro_rules! stale {
+        ($g:ident, $Ix:ty) => {
+            &|r: &mut Rng| {
+                // a vacant slot below the bound (the id of a removed node) if there is one
+                let vac: Vec<NodeIndex<$Ix>> = (0..$g.node_bound()).map(NodeIndex::<$Ix>::new).filter(|x| !$g.contains_node(*x)).collect();
+                if !vac.is_empty() && r.chance(80) { *r.pick(&vac) } else { NodeIndex::<$Ix>::new($g.node_bound() + r.below(3)) }
+            }
+        };
+    }
     match choice {
-        0 => with_graph!(Directed, u32, ctx, ag, o, |g, abs, conc, eid| paths_on(ctx, rng, g, n, &abs, &conc)),
-        1 => with_graph!(Directed, u8, ctx, ag, o, |g, abs, conc, eid| paths_on(ctx, rng, g, n, &abs, &conc)),
-        2 | 3 => with_stable!(Directed, u32, true, ctx, rng, ag, o, |g, abs, conc, eid| paths_on(ctx, rng, g, n, &abs, &conc)),
-        4 => with_map!(Directed, ctx, ag, o, |g, abs, conc| paths_on(ctx, rng, g, n, &abs, &conc)),
-        _ => {
-            // directed MatrixGraph: full view (Incoming iteration has the D6 orientation, see c08.rs)
-            let g0 = enc_matrix::<Directed>(rng, ag, &o.node_order, &o.edge_order, true);
-            let g = &g0;
+        0 => with_graph!(Directed, u32, ctx, ag, o, |g, abs, conc, eid| paths_on(ctx, rng, g, n, &abs, &conc, beyond!(g, u32))),
+        1 => with_graph!(Directed, u8, ctx, ag, o, |g, abs, conc, eid| paths_on(ctx, rng, g, n, &abs, &conc, beyond!(g, u8))),
+        2 | 3 => with_stable!(Directed, u32, true, ctx, rng, ag, o, |g, abs, conc, eid| paths_on(ctx, rng, g, n, &abs, &conc, stale!(g, u32))),
+        4 => with_graph!(Directed, usize, ctx, ag, o, |g, abs, conc, eid| paths_on(ctx, rng, g, n, &abs, &conc, beyond!(g, usize))),
+        5 | 6 | 7 => {
+            let pick = rng.below(6);
+            adapt!([RevGraph, RevStable, FrozenGraph, FrozenStable, EfGraph, EfStable], pick, ctx, rng, ag, o, Directed, u32, |g, abs, conc, eid| paths_on(
+                ctx, rng, g, n, &abs, &conc, beyond!(g, u32)
+            ))
+        }
+        8 => with_stable!(Directed, u8, true, ctx, rng, ag, o, |g, abs, conc, eid| paths_on(ctx, rng, g, n, &abs, &conc, stale!(g, u8))),
+        9 => with_map!(Directed, ctx, ag, o, |g, abs, conc| paths_on(ctx, rng, g, n, &abs, &conc, &|r: &mut Rng| 1000 + r.below(5))),
+        10 | 11 => {
+            // directed MatrixGraph (Incoming iteration has the D6 orientation, see c08.rs), plain and under
+            // `Reversed` (neighbors_directed does not go through the edge references of D6)
+            let rev = choice == 11;
+            let stored = if rev { rev_ag(ag) } else { ag.clone() };
+            let g0 = enc_matrix::<Directed>(rng, &stored, &o.node_order, &o.edge_order, true);
             let cidx: Vec<_> = {
                 let mut v = vec![petgraph::matrix_graph::NodeIndex::new(0); n];
-                for x in g.node_identifiers() {
-                    v[*g.node_weight(x)] = x;
+                for x in g0.node_identifiers() {
+                    v[*g0.node_weight(x)] = x;
                 }
                 v
             };
-            let abs = |x: petgraph::matrix_graph::NodeIndex| *g.node_weight(x);
+            let abs = |x: petgraph::matrix_graph::NodeIndex| *g0.node_weight(x);
             let conc = |a: usize| cidx[a];
-            ctx.line(
-                &view_line_out_only(ag, g, &abs, &|er, used| {
-                    let (s, t) = (abs(EdgeRef::source(&er)), abs(EdgeRef::target(&er)));
-                    eid_by_lookup(ag, s, t, *EdgeRef::weight(&er), used)
-                }),
-                "ok",
-            );
-            paths_on(ctx, rng, g, n, &abs, &conc)
+            let nb = g0.node_bound();
+            let absent = |r: &mut Rng| petgraph::matrix_graph::NodeIndex::new(nb + r.below(3));
+            let lookup = |er: (petgraph::matrix_graph::NodeIndex, petgraph::matrix_graph::NodeIndex, &i64), used: &mut Vec<usize>| {
+                let (s, t) = (abs(er.0), abs(er.1));
+                let k = eid_by_lookup(ag, s, t, *er.2, used);
+                if k != usize::MAX { k } else { eid_by_lookup(ag, t, s, *er.2, used) }
+            };
+            if rev {
+                let g = Reversed(&g0);
+                ctx.line(&view_line(ag, g, &abs, &|er, used| lookup((er.source(), er.target(), er.weight()), used)), "ok");
+                paths_on(ctx, rng, g, n, &abs, &conc, &absent)
+            } else {
+                let g = &g0;
+                ctx.line(&view_line_out_only(ag, g, &abs, &|er, used| lookup(er, used)), "ok");
+                paths_on(ctx, rng, g, n, &abs, &conc, &absent)
+            }
+        }
+        _ => {
+            let rag = rev_ag(ag);
+            let g0 = enc_map::<Directed>(&rag, &o.node_order, &o.edge_order);
+            let g = Reversed(&g0);
+            let abs = |x: usize| x;
+            let conc = |a: usize| a;
+            ctx.line(&view_line(ag, g, &abs, &|er, used| eid_by_lookup(ag, er.source(), er.target(), *er.weight(), used)), "ok");
+            paths_on(ctx, rng, g, n, &abs, &conc, &|r: &mut Rng| 1000 + r.below(5))
         }
     }
 }
@@ -509,11 +1214,69 @@ fn component_of(ag: &AG, s: usize) -> Vec<usize> {
     (0..ag.n).filter(|&x| seen[x]).collect()
 }
 
-fn steiner_on<Ix: IndexType>(ctx: &mut Ctx, ag: &AG, o: &Orders, terms: &[usize]) {
+/// the result of `steiner_tree` is a `StableGraph` with vacancies (the input's indices are kept): every
+/// reader of it must describe the same graph, and its iterators must honour their contracts
+fn stable_result_laws<E: Copy + PartialEq + Debug, Ix: IndexType>(t: &StableGraph<usize, E, Undirected, Ix>) -> Option<String> {
+    if let Some(e) = iter_laws_de(t.node_indices()) {
+        return Some(format!("node_indices: {}", e));
+    }
+    if let Some(e) = iter_laws_de(t.edge_indices()) {
+        return Some(format!("edge_indices: {}", e));
+    }
+    if let Some(e) = iter_laws_de(t.edge_references().map(|e| (e.id(), e.source(), e.target(), *e.weight()))) {
+        return Some(format!("edge_references: {}", e));
+    }
+    if let Some(e) = iter_laws_de(t.node_references().map(|(i, w)| (i, *w))) {
+        return Some(format!("node_references: {}", e));
+    }
+    if let Some(e) = regen_laws(&|| t.node_weights(), &|w| *w, 300).or_else(|| regen_laws(&|| t.edge_weights(), &|w| *w, 300)) {
+        return Some(format!("node_weights / edge_weights: {}", e));
+    }
+    let ns: Vec<NodeIndex<Ix>> = t.node_indices().collect();
+    if ns.len() != t.node_count() {
+        return Some(format!("node_count() = {} but node_indices yields {}", t.node_count(), ns.len()));
+    }
+    if t.edge_indices().count() != t.edge_count() {
+        return Some(format!("edge_count() = {} but edge_indices yields {}", t.edge_count(), t.edge_indices().count()));
+    }
+    for i in 0..t.node_bound() {
+        let x = NodeIndex::<Ix>::new(i);
+        if t.contains_node(x) != ns.contains(&x) || t.node_weight(x).is_some() != ns.contains(&x) {
+            return Some(format!("contains_node / node_weight({}) disagree with node_indices", i));
+        }
+    }
+    let pairs: Vec<(NodeIndex<Ix>, NodeIndex<Ix>)> = t.edge_indices().filter_map(|k| t.edge_endpoints(k)).collect();
+    for &x in &ns {
+        if let Some(e) = iter_laws(t.neighbors(x)).or_else(|| iter_laws(t.edges(x).map(|e| (e.id(), e.source(), e.target())))) {
+            return Some(format!("neighbors / edges({}): {}", x.index(), e));
+        }
+        let mut nb: Vec<usize> = t.neighbors(x).map(|y| y.index()).collect();
+        let mut want: Vec<usize> = pairs.iter().filter_map(|&(a, b)| if a == x { Some(b.index()) } else if b == x { Some(a.index()) } else { None }).collect();
+        nb.sort();
+        want.sort();
+        if nb != want {
+            return Some(format!("neighbors({}) = {:?} but the edges join it to {:?}", x.index(), nb, want));
+        }
+        for &y in &ns {
+            let has = pairs.contains(&(x, y)) || pairs.contains(&(y, x));
+            if t.contains_edge(x, y) != has || t.find_edge(x, y).is_some() != has {
+                return Some(format!("contains_edge / find_edge({}, {}) disagree with edge_endpoints", x.index(), y.index()));
+            }
+        }
+    }
+    None
+}
+
+fn steiner_on<E, Ix: IndexType>(ctx: &mut Ctx, ag: &AG, o: &Orders, terms: &[usize], mk: fn(i64) -> E, back: fn(E) -> i64)
+where
+    E: Copy + Eq + Ord + Debug + petgraph::algo::Measure + petgraph::algo::BoundedMeasure,
+{
     let e = enc_graph::<Undirected, Ix>(ag, &o.node_order, &o.edge_order);
-    let g = &e.g;
     let abs = |x: NodeIndex<Ix>| e.g[x];
-    ctx.line(&view_line(ag, g, &abs, &|er, _| e.eid[EdgeRef::id(&er).index()]), "ok");
+    ctx.line(&view_line(ag, &e.g, &abs, &|er, _| e.eid[EdgeRef::id(&er).index()]), "ok");
+    // the same graph with edge weights of type `E`
+    let typed: Graph<usize, E, Undirected, Ix> = e.g.map(|_, n| *n, |_, w| mk(*w));
+    let g = &typed;
     let ts: Vec<NodeIndex<Ix>> = terms.iter().map(|&a| NodeIndex::<Ix>::new(o.inv[a])).collect();
     let r = catch(|| {
         let t = steiner_tree(g, &ts);
@@ -521,18 +1284,115 @@ fn steiner_on<Ix: IndexType>(ctx: &mut Ctx, ag: &AG, o: &Orders, terms: &[usize]
         ns.sort();
         let mut es: Vec<usize> = t.edge_indices().map(|k| e.eid[k.index()]).collect();
         es.sort();
-        // the result must also describe the same edges: endpoints and weight of every retained edge
-        let consistent = t.edge_indices().all(|k| {
-            let (a, b) = t.edge_endpoints(k).unwrap();
-            let (x, y, w) = ag.edges[e.eid[k.index()]];
-            ((t[a], t[b]) == (x, y) || (t[a], t[b]) == (y, x)) && t[k] == w
-        });
-        format!("nodes={} edges={}{}", list(ns), list(es), if consistent { "" } else { " INCONSISTENT" })
+        // the result must also describe the same nodes and edges UNDER THE SAME INDICES: weight of every
+        // retained node, endpoints and weight of every retained edge
+        let consistent = t.node_indices().all(|x| g.node_weight(x) == Some(&t[x]))
+            && t.edge_indices().all(|k| {
+                let (a, b) = t.edge_endpoints(k).unwrap();
+                let (x, y, w) = ag.edges[e.eid[k.index()]];
+                ((t[a], t[b]) == (x, y) || (t[a], t[b]) == (y, x)) && back(t[k]) == w && g.edge_endpoints(k) == Some((a, b))
+            });
+        (format!("nodes={} edges={}{}", list(ns), list(es), if consistent { "" } else { " INCONSISTENT" }), stable_result_laws(&t))
     });
-    ctx.line(&format!("steiner terms={}", list(terms.iter())), &r.unwrap_or("panic".into()));
+    match r {
+        Some((ans, l)) => {
+            ctx.line(&format!("steiner terms={}", list(terms.iter())), &ans);
+            law(ctx, "steiner-result-readers", l);
+        }
+        None => ctx.line(&format!("steiner terms={}", list(terms.iter())), "panic"),
+    }
+}
+
+/// dispatch on index type x weight type
+fn steiner_any(ctx: &mut Ctx, rng: &mut Rng, ag: &AG, o: &Orders, terms: &[usize]) {
+    let wmax = ag.edges.iter().map(|e| e.2).max().unwrap_or(0);
+    let k = rng.below(if wmax * (ag.n as i64 + 1) < 120 { 10 } else { 8 });
+    note(ctx, &format!("steiner terms={} enc={}", terms.len(), ["Graph-u32/i64", "Graph-u8/i64", "Graph-u16/i32", "Graph-usize/u64", "Graph-u32/u32", "Graph-u8/i16", "Graph-u32/i64", "Graph-u8/i64", "Graph-u16/u8", "Graph-u32/i8"][k]));
+    match k {
+        0 | 6 => steiner_on::<i64, u32>(ctx, ag, o, terms, |w| w, |w| w),
+        1 | 7 => steiner_on::<i64, u8>(ctx, ag, o, terms, |w| w, |w| w),
+        2 => steiner_on::<i32, u16>(ctx, ag, o, terms, |w| w as i32, |w| w as i64),
+        3 => steiner_on::<u64, usize>(ctx, ag, o, terms, |w| w as u64, |w| w as i64),
+        4 => steiner_on::<u32, u32>(ctx, ag, o, terms, |w| w as u32, |w| w as i64),
+        5 => steiner_on::<i16, u8>(ctx, ag, o, terms, |w| w as i16, |w| w as i64),
+        // narrow weights only when every path length stays far below the type's maximum
+        8 => steiner_on::<u8, u16>(ctx, ag, o, terms, |w| w as u8, |w| w as i64),
+        _ => steiner_on::<i8, u32>(ctx, ag, o, terms, |w| w as i8, |w| w as i64),
+    }
+}
+
+/// capacity corner: a TREE with 255 nodes in an `UnGraph<_, _, u8>` (every index below the reserved 255 in
+/// use).  On a tree the Steiner tree is unique — the union of the paths between the terminals — so the
+/// answer is determined and computed here by pruning non-terminal leaves.
+fn steiner_capacity(ctx: &mut Ctx, rng: &mut Rng) {
+    let n = *rng.pick(&[254usize, 255, 255]);
+    let mut g = Graph::<usize, i32, Undirected, u8>::with_capacity(0, 0);
+    let perm = random_perm(rng, n);
+    for i in 0..n {
+        g.add_node(i);
+    }
+    let mut adj = vec![Vec::new(); n];
+    let mut edges = Vec::new();
+    for b in 1..n {
+        let a = if rng.chance(60) { b - 1 - rng.below(b.min(3)) } else { rng.below(b) };
+        edges.push((perm[a], perm[b]));
+    }
+    rng.shuffle(&mut edges);
+    for &(a, b) in &edges {
+        g.add_edge(NodeIndex::new(a), NodeIndex::new(b), rng.range(1, 3) as i32);
+        adj[a].push(b);
+        adj[b].push(a);
+    }
+    let k = 2 + rng.below(5);
+    let mut terms: Vec<usize> = random_perm(rng, n)[..k].to_vec();
+    if rng.chance(50) {
+        terms[0] = n - 1; // the highest index in use
+    }
+    terms.dedup();
+    // expected: prune leaves that are not terminals
+    let mut alive = vec![true; n];
+    let mut deg: Vec<usize> = adj.iter().map(|r| r.len()).collect();
+    let mut stack: Vec<usize> = (0..n).filter(|&x| deg[x] <= 1 && !terms.contains(&x)).collect();
+    while let Some(x) = stack.pop() {
+        if !alive[x] {
+            continue;
+        }
+        alive[x] = false;
+        for &y in &adj[x] {
+            if alive[y] {
+                deg[y] -= 1;
+                if deg[y] <= 1 && !terms.contains(&y) {
+                    stack.push(y);
+                }
+            }
+        }
+    }
+    let want_nodes: Vec<usize> = (0..n).filter(|&x| alive[x]).collect();
+    let ts: Vec<NodeIndex<u8>> = terms.iter().map(|&a| NodeIndex::new(a)).collect();
+    let r = catch(|| {
+        let t = steiner_tree(&g, &ts);
+        let mut ns: Vec<usize> = t.node_indices().map(|x| x.index()).collect();
+        ns.sort();
+        let es_ok = t.edge_indices().all(|k| {
+            let (a, b) = t.edge_endpoints(k).unwrap();
+            alive[a.index()] && alive[b.index()] && g.edge_endpoints(k) == Some((a, b))
+        });
+        (ns, t.edge_count(), es_ok, t.node_indices().all(|x| t[x] == x.index()))
+    });
+    let verdict = match r {
+        None => Some(format!("panicked on a tree with {} nodes in an UnGraph<_, _, u8>", n)),
+        Some((ns, _, _, _)) if ns != want_nodes => Some(format!("nodes {:?}, but the union of the terminal paths of this tree is {:?}", ns, want_nodes)),
+        Some((ns, m, ok, wok)) if m + 1 != ns.len() || !ok || !wok => Some(format!("{} nodes, {} edges: not the subtree spanned by the terminals", ns.len(), m)),
+        _ => None,
+    };
+    law(ctx, &format!("steiner-capacity-u8 n={} terminals={}", n, terms.len()), verdict);
 }
 
 fn case_steiner(ctx: &mut Ctx, rng: &mut Rng) {
+    if rng.chance(1) {
+        note(ctx, "corner=capacity-u8");
+        steiner_capacity(ctx, rng);
+    }
     let max_e = if ctx.tier_thorough { 12 } else { 10 };
     let max_n = if ctx.tier_thorough { 8 } else { 7 };
     let whi = *rng.pick(&[1i64, 2, 2, 2, 2, 3, 5]);
@@ -562,7 +1422,7 @@ fn case_steiner(ctx: &mut Ctx, rng: &mut Rng) {
         let mut terms = vec![p[2], p[3], p[5], p[4]];
         rng.shuffle(&mut terms);
         let o = orders(rng, &w);
-        if rng.chance(50) { steiner_on::<u32>(ctx, &w, &o, &terms) } else { steiner_on::<u8>(ctx, &w, &o, &terms) }
+        steiner_any(ctx, rng, &w, &o, &terms);
         return;
     }
     // 25 %: "metric ties": a random tree plus chords whose weight equals (or exceeds by one) the current
@@ -597,9 +1457,22 @@ fn case_steiner(ctx: &mut Ctx, rng: &mut Rng) {
     rng.shuffle(&mut comp);
     // mostly 3-5 terminals; 3 % a single terminal (degenerate: the tree is that node alone)
     let k = if rng.chance(3) { 1 } else if rng.chance(60) { (3 + rng.below(3)).min(comp.len()) } else { 2 + rng.below(comp.len() - 1) };
-    let terms: Vec<usize> = comp[..k.min(comp.len())].to_vec();
+    let mut terms: Vec<usize> = comp[..k.min(comp.len())].to_vec();
+    // corners: every node of the component is a terminal; the same terminal given twice (or three times)
+    if rng.chance(5) {
+        terms = comp.clone();
+        note(ctx, "corner=all-terminals");
+    }
+    if rng.chance(8) {
+        for _ in 0..1 + rng.below(2) {
+            let t = *rng.pick(&terms);
+            let at = rng.below(terms.len() + 1);
+            terms.insert(at, t);
+        }
+        note(ctx, "corner=duplicate-terminal");
+    }
     let o = orders(rng, ag);
-    if rng.chance(50) { steiner_on::<u32>(ctx, ag, &o, &terms) } else { steiner_on::<u8>(ctx, ag, &o, &terms) }
+    steiner_any(ctx, rng, ag, &o, &terms);
 }
 
 // ------------------------------------------------------------------------------------------------
@@ -612,25 +1485,32 @@ fn ranks_string(r: &Option<Vec<f64>>) -> String {
     }
 }
 
-fn pr_on<G>(g: G, n: usize, d: f64, it: usize, conc: &dyn Fn(usize) -> G::NodeId) -> Option<Vec<f64>>
+fn pr_on<G, D>(g: G, n: usize, d: D, it: usize, conc: &dyn Fn(usize) -> G::NodeId) -> Option<Vec<f64>>
 where
     G: NodeCount + IntoEdges + NodeIndexable + Copy,
+    D: petgraph::algo::UnitMeasure + Copy + Into<f64>,
 {
     catch(|| {
         let r = page_rank(g, d, it);
         if r.len() != n {
             return vec![f64::INFINITY; r.len()];
         }
-        (0..n).map(|a| r[g.to_index(conc(a))]).collect()
+        (0..n).map(|a| r[g.to_index(conc(a))].into()).collect()
     })
 }
 
-/// ranks by abstract id, computed on a random compact encoding of `ag`
-fn pr_random_encoding(rng: &mut Rng, ag: &AG, d: f64, it: usize) -> Option<Vec<f64>> {
+const PR_ENCODINGS: [&str; 12] = ["Graph-u32", "Graph-u8", "Stable-compact", "Graph-usize", "Reversed-Graph", "EdgeFiltered-Graph", "Frozen-Graph", "Reversed-Stable-compact", "Matrix", "Map", "Csr", "List"];
+
+/// ranks by abstract id, computed on a random compact encoding (or adaptor view) of `ag`
+fn pr_random_encoding<D>(rng: &mut Rng, ag: &AG, d: D, it: usize, tag: &mut String) -> Option<Vec<f64>>
+where
+    D: petgraph::algo::UnitMeasure + Copy + Into<f64>,
+{
     let o = orders(rng, ag);
     let n = ag.n;
     let simple = ag.is_simple();
-    let choice = if simple { rng.below(7) } else { rng.below(3) };
+    let choice = if simple { rng.below(12) } else { rng.below(8) };
+    tag.push_str(PR_ENCODINGS[choice]);
     match choice {
         0 => {
             let e = enc_graph::<Directed, u32>(ag, &o.node_order, &o.edge_order);
@@ -645,14 +1525,38 @@ fn pr_random_encoding(rng: &mut Rng, ag: &AG, d: f64, it: usize) -> Option<Vec<f
             pr_on(&e.g, n, d, it, &|a| NodeIndex::<u32>::new(o.inv[a]))
         }
         3 => {
+            let e = enc_graph::<Directed, usize>(ag, &o.node_order, &o.edge_order);
+            pr_on(&e.g, n, d, it, &|a| NodeIndex::<usize>::new(o.inv[a]))
+        }
+        4 => {
+            let e = enc_graph::<Directed, u32>(&rev_ag(ag), &o.node_order, &o.edge_order);
+            pr_on(Reversed(&e.g), n, d, it, &|a| NodeIndex::<u32>::new(o.inv[a]))
+        }
+        5 => {
+            // junk edges only (junk nodes would not be a compact view)
+            let j = enc_junk_graph::<Directed, u32>(rng, ag, &o, false, true);
+            let ef = EdgeFiltered::from_fn(&j.g, |e| *e.weight() != JUNKW);
+            pr_on(&ef, n, d, it, &|a| NodeIndex::<u32>::new(o.inv[a]))
+        }
+        6 => {
+            let e = enc_graph::<Directed, u32>(ag, &o.node_order, &o.edge_order);
+            let mut gr = &e.g;
+            let fr = Frozen::new(&mut gr);
+            pr_on(&fr, n, d, it, &|a| NodeIndex::<u32>::new(o.inv[a]))
+        }
+        7 => {
+            let e = enc_stable::<Directed, u16>(rng, &rev_ag(ag), &o.node_order, &o.edge_order, false);
+            pr_on(Reversed(&e.g), n, d, it, &|a| NodeIndex::<u16>::new(o.inv[a]))
+        }
+        8 => {
             let g0 = enc_matrix::<Directed>(rng, ag, &o.node_order, &o.edge_order, false);
             pr_on(&g0, n, d, it, &|a| petgraph::matrix_graph::NodeIndex::new(o.inv[a]))
         }
-        4 => {
+        9 => {
             let g0 = enc_map::<Directed>(ag, &o.node_order, &o.edge_order);
             pr_on(&g0, n, d, it, &|a| a)
         }
-        5 => {
+        10 => {
             let g0 = enc_csr::<Directed>(ag, &o.node_order, &o.edge_order);
             pr_on(&g0, n, d, it, &|a| o.inv[a] as u32)
         }
@@ -670,17 +1574,191 @@ fn case_pagerank(ctx: &mut Ctx, rng: &mut Rng) {
     if rng.chance(3) {
         ag = AG { directed: true, n: 0, edges: vec![] };
     }
+    if rng.chance(5) {
+        ag = tiny_multi(rng, true);
+        note(ctx, &format!("corner=tiny n={} m={}", ag.n, ag.edges.len()));
+    }
     let ag = &ag;
     ctx.line(&abstract_line(ag), "ok");
     // damping factors that are exact binary fractions plus the usual 0.85; 0 and 1 are the boundary cases
     let (num, den) = *rng.pick(&[(0u32, 1u32), (1, 1), (1, 2), (1, 4), (3, 4), (7, 8), (17, 20), (17, 20), (1, 8), (15, 16)]);
-    let d = num as f64 / den as f64;
     let it = rng.below(if ctx.tier_thorough { 8 } else { 6 });
     let p = random_perm(rng, ag.n);
-    let r1 = pr_random_encoding(rng, ag, d, it);
     let rag = ag.relabel(&p);
-    let r2 = pr_random_encoding(rng, &rag, d, it);
-    ctx.line(&format!("pagerank d={}/{} it={} perm={}", num, den, it, list(p.iter())), &format!("{}|{}", ranks_string(&r1), ranks_string(&r2)));
+    let single = rng.chance(25);
+    let mut tag = String::new();
+    let (r1, r2) = if single {
+        let d = num as f32 / den as f32;
+        let r1 = pr_random_encoding(rng, ag, d, it, &mut tag);
+        tag.push('|');
+        (r1, pr_random_encoding(rng, &rag, d, it, &mut tag))
+    } else {
+        let d = num as f64 / den as f64;
+        let r1 = pr_random_encoding(rng, ag, d, it, &mut tag);
+        tag.push('|');
+        (r1, pr_random_encoding(rng, &rag, d, it, &mut tag))
+    };
+    if rng.chance(4) {
+        pagerank_domain_law(ctx, rng, ag);
+    }
+    note(ctx, &format!("pagerank float={} d={}/{} it={} enc={}", if single { "f32" } else { "f64" }, num, den, it, tag));
+    // f32: 24-bit mantissa; the judge's tolerance is widened from 1e-9 to 2e-5
+    let tol = if single { " tol=20000000" } else { "" };
+    ctx.line(&format!("pagerank d={}/{} it={} perm={}{}", num, den, it, list(p.iter()), tol), &format!("{}|{}", ranks_string(&r1), ranks_string(&r2)));
+}
+
+// ------------------------------------------------------------------------------------------------
+// capacity corners of the INPUT index type (wave 6): a `Graph<_, _, _, u8>` with 254 / 255 nodes (255 is
+// the most a u8-indexed Graph holds: index 255 is reserved).  Too large for the brute-force judges, so the
+// answer is checked here from the definition and compared with the answer on the same graph with u32
+// indices (same insertion order, hence the same iteration orders).
+
+fn big_sparse(rng: &mut Rng, directed: bool) -> AG {
+    let n = *rng.pick(&[254usize, 255, 255]);
+    let hidden = random_perm(rng, n);
+    let mut edges: Vec<(usize, usize, i64)> = Vec::new();
+    let mut have = HashSet::new();
+    let mut add = |a: usize, b: usize, edges: &mut Vec<(usize, usize, i64)>| {
+        let k = if directed || a <= b { (a, b) } else { (b, a) };
+        if a != b && have.insert(k) {
+            edges.push((hidden[a], hidden[b], 1));
+        }
+    };
+    for i in 0..n - 1 {
+        if rng.chance(80) {
+            add(i, i + 1, &mut edges);
+        }
+    }
+    for _ in 0..120 {
+        let a = rng.below(n);
+        // chords are short so that cliques / cycles / alternative paths stay local
+        let b = (a + 2 + rng.below(3)).min(n - 1);
+        if directed && rng.chance(40) { add(b, a, &mut edges) } else { add(a, b, &mut edges) }
+    }
+    rng.shuffle(&mut edges);
+    // a u8-indexed Graph also holds at most 255 edges: mostly exactly that many, sometimes one fewer
+    edges.truncate(if rng.chance(70) { 255 } else { 254 });
+    AG { directed, n, edges }
+}
+
+fn capacity_case(ctx: &mut Ctx, rng: &mut Rng, kind: usize) {
+    let directed = kind == 0 || kind == 4;
+    let ag = big_sparse(rng, directed);
+    let ag = &ag;
+    let n = ag.n;
+    let o = Orders { node_order: (0..n).collect(), edge_order: (0..ag.edges.len()).collect(), inv: (0..n).collect() };
+    let adjacent = |a: usize, b: usize| ag.edges.iter().any(|&(x, y, _)| (x, y) == (a, b) || (!directed && (x, y) == (b, a)));
+    let verdict: Option<String> = match kind {
+        0 => {
+            let (e8, e32) = (enc_graph::<Directed, u8>(ag, &o.node_order, &o.edge_order), enc_graph::<Directed, u32>(ag, &o.node_order, &o.edge_order));
+            let r8 = catch(|| greedy_feedback_arc_set(&e8.g).map(|e| e.id().index()).collect::<Vec<_>>());
+            let r32 = catch(|| greedy_feedback_arc_set(&e32.g).map(|e| e.id().index()).collect::<Vec<_>>());
+            match (r8, r32) {
+                (Some(a), Some(b)) => {
+                    // Kahn on the kept arcs
+                    let mut indeg = vec![0usize; n];
+                    let kept: Vec<(usize, usize)> = ag.edges.iter().enumerate().filter(|(k, _)| !a.contains(k)).map(|(_, &(x, y, _))| (x, y)).collect();
+                    for &(_, y) in &kept { indeg[y] += 1; }
+                    let mut st: Vec<usize> = (0..n).filter(|&x| indeg[x] == 0).collect();
+                    let mut seen = 0;
+                    while let Some(x) = st.pop() {
+                        seen += 1;
+                        for &(p, q) in &kept { if p == x { indeg[q] -= 1; if indeg[q] == 0 { st.push(q); } } }
+                    }
+                    if a != b { Some(format!("u8 indices: arcs {:?}; u32 indices: arcs {:?}", a, b)) }
+                    else if seen != n { Some("the graph without the returned arcs still has a cycle".to_string()) } else { None }
+                }
+                _ => Some("panicked".to_string()),
+            }
+        }
+        1 => {
+            let (e8, e32) = (enc_graph::<Undirected, u8>(ag, &o.node_order, &o.edge_order), enc_graph::<Undirected, u32>(ag, &o.node_order, &o.edge_order));
+            let r8 = catch(|| { let (c, k) = dsatur_coloring(&e8.g); let mut v: Vec<(usize, usize)> = c.into_iter().map(|(x, c)| (x.index(), c)).collect(); v.sort(); (v, k) });
+            let r32 = catch(|| { let (c, k) = dsatur_coloring(&e32.g); let mut v: Vec<(usize, usize)> = c.into_iter().map(|(x, c)| (x.index(), c)).collect(); v.sort(); (v, k) });
+            match (r8, r32) {
+                (Some((c, k)), Some(b)) => {
+                    if c.len() != n || c.iter().enumerate().any(|(i, p)| p.0 != i) { Some(format!("{} of {} nodes coloured", c.len(), n)) }
+                    else if ag.edges.iter().any(|&(x, y, _)| c[x].1 == c[y].1) { Some("not a proper colouring".to_string()) }
+                    else if (0..k).any(|col| !c.iter().any(|p| p.1 == col)) || c.iter().any(|p| p.1 >= k) { Some(format!("colours are not exactly 0..{}", k)) }
+                    else if (c.clone(), k) != b { Some("the colouring depends on the index type (u8 vs u32)".to_string()) } else { None }
+                }
+                _ => Some("panicked".to_string()),
+            }
+        }
+        3 => {
+            let (e8, e32) = (enc_graph::<Undirected, u8>(ag, &o.node_order, &o.edge_order), enc_graph::<Undirected, u32>(ag, &o.node_order, &o.edge_order));
+            let canon = |cs: Vec<Vec<usize>>| { let mut cs: Vec<Vec<usize>> = cs.into_iter().map(|mut c| { c.sort(); c }).collect(); cs.sort(); cs };
+            let r8 = catch(|| canon(maximal_cliques(&e8.g).into_iter().map(|c| c.into_iter().map(|x| x.index()).collect()).collect()));
+            let r32 = catch(|| canon(maximal_cliques(&e32.g).into_iter().map(|c| c.into_iter().map(|x| x.index()).collect()).collect()));
+            match (r8, r32) {
+                (Some(a), Some(b)) => {
+                    let is_clique = |c: &Vec<usize>| c.iter().all(|&x| c.iter().all(|&y| x == y || adjacent(x, y)));
+                    let maximal = |c: &Vec<usize>| !(0..n).any(|v| !c.contains(&v) && c.iter().all(|&x| adjacent(v, x)));
+                    if a.windows(2).any(|w| w[0] == w[1]) { Some("a clique is returned twice".to_string()) }
+                    else if let Some(c) = a.iter().find(|c| !is_clique(c) || !maximal(c)) { Some(format!("{:?} is not a maximal clique", c)) }
+                    else if (0..n).any(|v| !a.iter().any(|c| c.contains(&v))) || ag.edges.iter().any(|&(x, y, _)| !a.iter().any(|c| c.contains(&x) && c.contains(&y))) { Some("a node or an edge lies in no returned clique".to_string()) }
+                    else if a != b { Some("the cliques depend on the index type (u8 vs u32)".to_string()) } else { None }
+                }
+                _ => Some("panicked".to_string()),
+            }
+        }
+        _ => {
+            let (e8, e32) = (enc_graph::<Directed, u8>(ag, &o.node_order, &o.edge_order), enc_graph::<Directed, u32>(ag, &o.node_order, &o.edge_order));
+            let (x, y, _) = ag.edges[rng.below(ag.edges.len())];
+            let a = if rng.chance(50) { n - 1 } else { x }; // the highest index in use, or the tail of an arc
+            let mut b = y;
+            // a target a few steps further
+            for _ in 0..rng.below(4) { if let Some(&(_, t, _)) = ag.edges.iter().find(|e| e.0 == b && e.1 != a) { b = t; } }
+            if a == b { return; }
+            let max = Some(rng.below(5));
+            let r8 = catch(|| all_simple_paths::<Vec<_>, _, RandomState>(&e8.g, NodeIndex::new(a), NodeIndex::new(b), 0, max).take(2000).map(|p: Vec<NodeIndex<u8>>| p.into_iter().map(|x| x.index()).collect::<Vec<_>>()).collect::<Vec<_>>());
+            let r32 = catch(|| all_simple_paths::<Vec<_>, _, RandomState>(&e32.g, NodeIndex::new(a), NodeIndex::new(b), 0, max).take(2000).map(|p: Vec<NodeIndex<u32>>| p.into_iter().map(|x| x.index()).collect::<Vec<_>>()).collect::<Vec<_>>());
+            match (r8, r32) {
+                (Some(p8), Some(p32)) => {
+                    let bad = p8.iter().find(|p| p.first() != Some(&a) || p.last() != Some(&b) || p.len() > max.unwrap() + 2 || p.windows(2).any(|w| !adjacent(w[0], w[1])) || p.iter().collect::<BTreeSet<_>>().len() != p.len());
+                    if let Some(p) = bad { Some(format!("{:?} is not a simple path {}->{} with at most {:?} intermediate nodes", p, a, b, max)) }
+                    else if p8 != p32 { Some(format!("u8 indices: {} paths, u32 indices: {} paths (or another order)", p8.len(), p32.len())) } else { None }
+                }
+                _ => Some("panicked".to_string()),
+            }
+        }
+    };
+    law(ctx, &format!("capacity-u8-{} n={}", ["fas", "dsatur", "", "cliques", "paths"][kind], n), verdict);
+}
+
+/// documented panic of `page_rank` ("# Panics: the damping factor should be … between 0 and 1 (0 and 1
+/// included). Otherwise, it panics."): NaN, negative, above 1, infinite — on a non-empty graph
+fn pagerank_domain_law(ctx: &mut Ctx, rng: &mut Rng, ag: &AG) {
+    if ag.n == 0 {
+        return;
+    }
+    let o = orders(rng, ag);
+    let e = enc_graph::<Directed, u32>(ag, &o.node_order, &o.edge_order);
+    let bad64 = [f64::NAN, -0.25, 1.5, f64::INFINITY, f64::NEG_INFINITY, 1.0 + f64::EPSILON, -f64::MIN_POSITIVE];
+    let bad32 = [f32::NAN, -0.25, 1.5, f32::INFINITY, f32::NEG_INFINITY, 1.0 + f32::EPSILON, -f32::MIN_POSITIVE];
+    let mut v = None;
+    for d in bad64 {
+        if v.is_none() && catch(|| page_rank(&e.g, d, 1)).is_some() {
+            v = Some(format!("page_rank accepted the f64 damping factor {:?}", d));
+        }
+    }
+    for d in bad32 {
+        if v.is_none() && catch(|| page_rank(&e.g, d, 1)).is_some() {
+            v = Some(format!("page_rank accepted the f32 damping factor {:?}", d));
+        }
+    }
+    // -0.0 is 0: accepted, and equal to the answer for +0.0 (NaN where finding D22 applies)
+    if v.is_none() {
+        let (p, m) = (catch(|| page_rank(&e.g, 0.0f64, 2)), catch(|| page_rank(&e.g, -0.0f64, 2)));
+        let same = match (&p, &m) {
+            (Some(a), Some(b)) => a.len() == b.len() && a.iter().zip(b).all(|(x, y)| (x.is_nan() && y.is_nan()) || x == y),
+            _ => false,
+        };
+        if !same {
+            v = Some(format!("damping factor -0.0 gives {:?}, +0.0 gives {:?}", m, p));
+        }
+    }
+    law(ctx, "pagerank-documented-domain", v);
 }
 
 pub fn run(ctx: &mut Ctx, case: u64) {
@@ -689,6 +1767,11 @@ pub fn run(ctx: &mut Ctx, case: u64) {
     let k = (case % 7) as usize;
     ctx.raw(&format!("case {} {}", case, kinds[k]));
     let rng = &mut rng;
+    // 1 %: the capacity corner of u8 indices for the algorithms that are generic in the graph type
+    if matches!(k, 0 | 1 | 3 | 4) && rng.chance(1) {
+        note(ctx, "corner=capacity-u8");
+        capacity_case(ctx, rng, k);
+    }
     match k {
         0 => case_fas(ctx, rng),
         1 => case_dsatur(ctx, rng),
